@@ -760,3 +760,466 @@ Section Wiring.
       exfalso. apply Hi. rewrite Hids. apply in_map_iff. now exists (b, cb).
   Qed.
 End Wiring.
+
+(** * Resolution of requests under all schedules *)
+
+Lemma nth_error_update_same {A} (l : list A) i x y : nth_error l i = Some y -> nth_error (update l i x) i = Some x.
+Proof.
+  revert i. induction l as [|z l IH]; intros [|i]; cbn [nth_error update]; try discriminate; auto.
+Qed.
+
+Lemma nth_error_update_other {A} (l : list A) i j x : i <> j -> nth_error (update l i x) j = nth_error l j.
+Proof.
+  revert i j. induction l as [|z l IH]; intros [|i] [|j] H; cbn [nth_error update]; try reflexivity; try congruence.
+  apply IH. congruence.
+Qed.
+
+Lemma update_length {A} (l : list A) i x : length (update l i x) = length l.
+Proof. revert i. induction l as [|z l IH]; intros [|i]; cbn [update length]; auto. Qed.
+
+Definition far_ok (h : nat) (dead : list nat) (d : bool) (f : fstat) : Prop :=
+  match f with
+  | FNone => True
+  | FConn => d = true /\ dead <> []
+  | FErr => d = true /\ In h dead
+  end.
+
+(** Per-request invariant: [d] is the far end's decision for this request. *)
+Definition rinv (h : nat) (dead : list nat) (d : bool) (r : rstate) : Prop :=
+  match r_phase r with
+  | Going k => (1 <= k <= h)%nat /\ r_far r = FNone
+  | Held => r_far r = FNone
+  | AccBack k => (1 <= k <= h)%nat /\ r_far r = FConn /\ d = true
+  | RejBack k => (1 <= k <= h)%nat /\ far_ok h dead d (r_far r)
+  | DoneOk => r_far r = FConn /\ d = true
+  | DoneErr => far_ok h dead d (r_far r)
+  end.
+
+Definition inv (s : sys) : Prop :=
+  (1 <= s_h s)%nat /\
+  forall i r, nth_error (s_reqs s) i = Some r -> rinv (s_h s) (s_dead s) (nth i (s_decide s) false) r.
+
+Lemma is_dead_in s k : is_dead s k = true -> In k (s_dead s).
+Proof.
+  unfold is_dead. intros H. apply existsb_exists in H. destruct H as [x [H1 H2]].
+  apply Nat.eqb_eq in H2. now subst.
+Qed.
+
+Lemma far_ok_mono h dead k d f : far_ok h dead d f -> far_ok h (k :: dead) d f.
+Proof. destruct f; cbn; auto. - intros [? ?]. split; [auto|discriminate]. - intros [? ?]. split; [auto|now right]. Qed.
+
+Lemma rinv_mono h dead k d r : rinv h dead d r -> rinv h (k :: dead) d r.
+Proof.
+  unfold rinv. destruct (r_phase r); auto.
+  - intros [? ?]. split; [auto|now apply far_ok_mono].
+  - apply far_ok_mono.
+Qed.
+
+Lemma fail_up_inv h dead d k f :
+  (1 <= k <= h)%nat -> far_ok h dead d f -> rinv h dead d (mkR (fail_up k) f).
+Proof.
+  intros Hk Hf. destruct k as [|[|k']]; cbn [fail_up]; unfold rinv; cbn [r_phase r_far]; auto.
+  split; [lia|exact Hf].
+Qed.
+
+Lemma step_req_inv s i lost r r' :
+  (1 <= s_h s)%nat -> rinv (s_h s) (s_dead s) (nth i (s_decide s) false) r ->
+  step_req s i lost r = Some r' -> rinv (s_h s) (s_dead s) (nth i (s_decide s) false) r'.
+Proof.
+  intros Hh Hr. unfold step_req.
+  destruct (phase_conn (s_h s) (r_phase r)) as [k|] eqn:EP; [|discriminate].
+  destruct lost.
+  - destruct (is_dead s k) eqn:ED; [|discriminate]. intros [= <-].
+    pose proof (is_dead_in _ _ ED) as Hin.
+    assert (Hne : s_dead s <> []) by (intros E; rewrite E in Hin; destruct Hin).
+    unfold rinv in Hr. destruct (r_phase r) eqn:EPh; cbn [phase_conn] in EP; try discriminate; injection EP as <-.
+    + destruct Hr as [Hk Hf]. apply fail_up_inv; [exact Hk|]. rewrite Hf. exact I.
+    + apply fail_up_inv; [lia|].
+      destruct (nth i (s_decide s) false) eqn:EDc; [cbn; auto|]. rewrite Hr. exact I.
+    + destruct Hr as [Hk [Hf Hd]]. apply fail_up_inv; [exact Hk|]. rewrite Hf. cbn. auto.
+    + destruct Hr as [Hk Hf]. apply fail_up_inv; assumption.
+  - destruct (is_dead s k) eqn:ED; [discriminate|].
+    unfold rinv in Hr. destruct (r_phase r) eqn:EPh; cbn [phase_conn] in EP; try discriminate; injection EP as <-.
+    + destruct Hr as [Hk Hf]. destruct (Nat.ltb k0 (s_h s)) eqn:EL; intros [= <-]; unfold rinv; cbn [r_phase r_far].
+      * apply Nat.ltb_lt in EL. split; [lia|exact Hf].
+      * exact Hf.
+    + destruct (nth i (s_decide s) false) eqn:EDc; intros [= <-]; unfold rinv; cbn [r_phase r_far].
+      * split; [lia|auto].
+      * split; [lia|]. rewrite Hr. exact I.
+    + destruct Hr as [Hk [Hf Hd]]. destruct k0 as [|[|k']]; intros [= <-]; unfold rinv; cbn [r_phase r_far]; auto.
+      split; [lia|auto].
+    + destruct Hr as [Hk Hf]. destruct k0 as [|[|k']]; intros [= <-]; unfold rinv; cbn [r_phase r_far]; auto.
+      split; [lia|auto].
+Qed.
+
+Lemma step_inv s a s' : inv s -> step s a = Some s' -> inv s'.
+Proof.
+  intros [Hh Hi]. destruct a as [i|i|k]; cbn [step].
+  - destruct (nth_error (s_reqs s) i) as [r|] eqn:E; [|discriminate].
+    destruct (step_req s i false r) as [r'|] eqn:ES; [|discriminate]. intros [= <-].
+    split; [exact Hh|]. cbn [s_h s_dead s_reqs s_decide]. intros j rj Hj.
+    destruct (Nat.eq_dec i j) as [<-|Hne].
+    + rewrite (nth_error_update_same _ _ _ _ E) in Hj. injection Hj as <-.
+      eapply step_req_inv; eauto.
+    + rewrite nth_error_update_other in Hj by exact Hne. auto.
+  - destruct (nth_error (s_reqs s) i) as [r|] eqn:E; [|discriminate].
+    destruct (step_req s i true r) as [r'|] eqn:ES; [|discriminate]. intros [= <-].
+    split; [exact Hh|]. cbn [s_h s_dead s_reqs s_decide]. intros j rj Hj.
+    destruct (Nat.eq_dec i j) as [<-|Hne].
+    + rewrite (nth_error_update_same _ _ _ _ E) in Hj. injection Hj as <-.
+      eapply step_req_inv; eauto.
+    + rewrite nth_error_update_other in Hj by exact Hne. auto.
+  - destruct (Nat.leb 1 k && Nat.leb k (s_h s) && negb (is_dead s k))%bool; [|discriminate]. intros [= <-].
+    split; [exact Hh|]. cbn [s_h s_dead s_reqs s_decide]. intros j rj Hj. apply rinv_mono. auto.
+Qed.
+
+Lemma init_inv h decide : (1 <= h)%nat -> inv (init_sys h decide).
+Proof.
+  intros Hh. split; [exact Hh|]. cbn [init_sys s_h s_dead s_reqs s_decide]. intros i r Hi.
+  apply nth_error_In in Hi. apply in_map_iff in Hi. destruct Hi as [b [<- _]].
+  unfold rinv. cbn [r_phase r_far]. split; [lia|reflexivity].
+Qed.
+
+Lemma run_inv acts : forall s, inv s -> inv (run acts s).
+Proof.
+  induction acts as [|a acts IH]; intros s Hs; cbn [run]; [exact Hs|].
+  destruct (step s a) as [s'|] eqn:E; [|auto]. apply IH. eapply step_inv; eauto.
+Qed.
+
+Lemma step_static s a s' : step s a = Some s' -> s_decide s' = s_decide s /\ s_h s' = s_h s.
+Proof.
+  destruct a as [j|j|k]; cbn [step].
+  - destruct (nth_error (s_reqs s) j) as [r|]; [|discriminate]. destruct (step_req s j false r); [|discriminate].
+    intros [= <-]. auto.
+  - destruct (nth_error (s_reqs s) j) as [r|]; [|discriminate]. destruct (step_req s j true r); [|discriminate].
+    intros [= <-]. auto.
+  - destruct (Nat.leb 1 k && Nat.leb k (s_h s) && negb (is_dead s k))%bool; [|discriminate].
+    intros [= <-]. auto.
+Qed.
+
+Lemma run_static acts : forall s, s_decide (run acts s) = s_decide s /\ s_h (run acts s) = s_h s.
+Proof.
+  induction acts as [|a acts IH]; intros s; cbn [run]; [auto|].
+  destruct (step s a) as [s'|] eqn:E; [|auto].
+  destruct (IH s') as [-> ->]. eapply step_static; eauto.
+Qed.
+
+Lemma rinv_facts h dead d r : rinv h dead d r ->
+  (r_phase r = DoneOk -> r_far r = FConn /\ d = true) /\
+  (d = false -> r_far r = FNone /\ r_phase r <> DoneOk) /\
+  (r_far r = FErr -> d = true /\ In h dead) /\
+  (r_phase r = DoneErr -> r_far r = FConn -> dead <> []).
+Proof.
+  unfold rinv, far_ok. destruct r as [p f]. cbn [r_phase r_far].
+  destruct p, f; intuition (try congruence; try discriminate).
+Qed.
+
+(** ** Safety, for every schedule (including every placement of connection losses) *)
+
+(** The origin's connect future resolves successfully only for a request the far end matched by id
+    and accepted; a request the far end dropped (superfluous, or its value was lost) never connects
+    and leaves no far-end port behind; a far-end callback fails only when its own connection was lost;
+    and when the origin sees an error although the far end holds a connected port, some connection
+    on the path has been lost -- so that port is broken and its user gets an error too. *)
+Theorem resolution_safe h decide acts i r :
+  (1 <= h)%nat ->
+  nth_error (s_reqs (run acts (init_sys h decide))) i = Some r ->
+  let s := run acts (init_sys h decide) in
+  let d := nth i decide false in
+  (r_phase r = DoneOk -> r_far r = FConn /\ d = true) /\
+  (d = false -> r_far r = FNone /\ r_phase r <> DoneOk) /\
+  (r_far r = FErr -> d = true /\ In h (s_dead s)) /\
+  (r_phase r = DoneErr -> r_far r = FConn -> s_dead s <> []).
+Proof.
+  intros Hh Hr s d.
+  assert (Hinv : inv s) by (apply run_inv, init_inv; exact Hh).
+  assert (Hdec : s_decide s = decide /\ s_h s = h) by (unfold s; apply (run_static acts (init_sys h decide))).
+  destruct Hdec as [Hd1 Hd2]. destruct Hinv as [_ Hi]. specialize (Hi i r Hr). rewrite Hd1, Hd2 in Hi.
+  fold d in Hi. apply rinv_facts in Hi. exact Hi.
+Qed.
+
+(** ** Progress: nothing stays pending at quiescence
+
+    This is where the chmux-level facts enter (trusted here, to be discharged by the dispatcher model
+    of C10 and the fail-stop model of C06): a request in flight on a live connection can always make
+    its next step ([AMove] is enabled: the dispatcher delivers it, the listener side answers it
+    exactly once, the answer is delivered), and a request that depends on a lost connection can always
+    fail ([ALost] is enabled).  Given that, every request that is not resolved has an enabled step. *)
+Theorem progress s i r :
+  inv s -> nth_error (s_reqs s) i = Some r -> is_done r = false ->
+  enabled s (AMove i) = true \/ enabled s (ALost i) = true.
+Proof.
+  intros [Hh Hi] E Hd. specialize (Hi _ _ E). unfold enabled. cbn [step]. rewrite E.
+  unfold step_req. unfold is_done in Hd. unfold rinv in Hi.
+  destruct (r_phase r) as [k| |k|k| |] eqn:EP; try discriminate; cbn [phase_conn].
+  - destruct (is_dead s k); [now right|left]. now destruct (Nat.ltb k (s_h s)).
+  - destruct (is_dead s (s_h s)); [now right|left]. now destruct (nth i (s_decide s) false).
+  - destruct (is_dead s k); [now right|left]. now destruct k as [|[|k']].
+  - destruct (is_dead s k); [now right|left]. now destruct k as [|[|k']].
+Qed.
+
+Corollary quiescent_all_resolved s :
+  inv s -> quiescent s -> forall i r, nth_error (s_reqs s) i = Some r -> is_done r = true.
+Proof.
+  intros Hinv Hq i r E. destruct (is_done r) eqn:Hd; [reflexivity|].
+  destruct (Hq i) as [H1 H2]. destruct (progress _ _ _ Hinv E Hd); congruence.
+Qed.
+
+(** ** Termination: every step of a request strictly decreases a measure *)
+
+Definition rank (h : nat) (p : phase) : nat :=
+  match p with
+  | Going k => 3 * h + 3 - k
+  | Held => 2 * h + 2
+  | AccBack k => h + 1 + k
+  | RejBack k => k
+  | DoneOk | DoneErr => 0
+  end.
+
+Definition measure (s : sys) : nat := list_sum (map (fun r => rank (s_h s) (r_phase r)) (s_reqs s)).
+
+Lemma rank_fail_up h k : (1 <= k)%nat -> (rank h (fail_up k) < k)%nat.
+Proof. intros H. destruct k as [|[|k']]; cbn [fail_up rank]; lia. Qed.
+
+Lemma step_req_decreases s i lost r r' :
+  rinv (s_h s) (s_dead s) (nth i (s_decide s) false) r ->
+  step_req s i lost r = Some r' -> (rank (s_h s) (r_phase r') < rank (s_h s) (r_phase r))%nat.
+Proof.
+  intros Hr. unfold step_req.
+  destruct (phase_conn (s_h s) (r_phase r)) as [k|] eqn:EP; [|discriminate].
+  unfold rinv in Hr.
+  destruct lost.
+  - destruct (is_dead s k); [|discriminate]. intros [= <-]. cbn [r_phase].
+    destruct (r_phase r) eqn:EPh; cbn [phase_conn] in EP; try discriminate; injection EP as <-.
+    + destruct Hr as [Hk _]. pose proof (rank_fail_up (s_h s) k0 ltac:(lia)). cbn [rank]. lia.
+    + destruct (s_h s) as [|[|h']] eqn:EH; cbn [fail_up rank]; lia.
+    + destruct Hr as [Hk _]. pose proof (rank_fail_up (s_h s) k0 ltac:(lia)). cbn [rank]. lia.
+    + destruct Hr as [Hk _]. pose proof (rank_fail_up (s_h s) k0 ltac:(lia)). cbn [rank]. lia.
+  - destruct (is_dead s k); [discriminate|].
+    destruct (r_phase r) eqn:EPh; cbn [phase_conn] in EP; try discriminate; injection EP as <-.
+    + destruct Hr as [Hk _]. destruct (Nat.ltb k0 (s_h s)) eqn:EL; intros [= <-]; cbn [r_phase rank]; lia.
+    + destruct (nth i (s_decide s) false); intros [= <-]; cbn [r_phase rank]; lia.
+    + destruct Hr as [Hk _]. destruct k0 as [|[|k']]; intros [= <-]; cbn [r_phase rank]; lia.
+    + destruct Hr as [Hk _]. destruct k0 as [|[|k']]; intros [= <-]; cbn [r_phase rank]; lia.
+Qed.
+
+Lemma list_sum_update {A} (f : A -> nat) l i x y :
+  nth_error l i = Some y -> (list_sum (map f (update l i x)) + f y = list_sum (map f l) + f x)%nat.
+Proof.
+  revert i. induction l as [|z l IH]; intros [|i]; cbn [nth_error update map list_sum fold_right]; try discriminate.
+  - intros [= ->]. lia.
+  - intros H. specialize (IH _ H). unfold list_sum in IH. lia.
+Qed.
+
+Definition is_cut (a : action) : bool := match a with ACut _ => true | _ => false end.
+
+Lemma step_decreases s a s' :
+  inv s -> step s a = Some s' ->
+  if is_cut a then measure s' = measure s else (measure s' < measure s)%nat.
+Proof.
+  intros [Hh Hi]. destruct a as [i|i|k]; cbn [step is_cut].
+  - destruct (nth_error (s_reqs s) i) as [r|] eqn:E; [|discriminate].
+    destruct (step_req s i false r) as [r'|] eqn:ES; [|discriminate]. intros [= <-].
+    unfold measure. cbn [s_h s_reqs].
+    pose proof (list_sum_update (fun r => rank (s_h s) (r_phase r)) _ _ r' _ E) as HS. cbn beta in HS.
+    pose proof (step_req_decreases _ _ _ _ _ (Hi _ _ E) ES). lia.
+  - destruct (nth_error (s_reqs s) i) as [r|] eqn:E; [|discriminate].
+    destruct (step_req s i true r) as [r'|] eqn:ES; [|discriminate]. intros [= <-].
+    unfold measure. cbn [s_h s_reqs].
+    pose proof (list_sum_update (fun r => rank (s_h s) (r_phase r)) _ _ r' _ E) as HS. cbn beta in HS.
+    pose proof (step_req_decreases _ _ _ _ _ (Hi _ _ E) ES). lia.
+  - destruct (Nat.leb 1 k && Nat.leb k (s_h s) && negb (is_dead s k))%bool; [|discriminate]. now intros [= <-].
+Qed.
+
+(** number of request steps actually taken by a schedule *)
+Fixpoint moves (acts : list action) (s : sys) : nat :=
+  match acts with
+  | [] => O
+  | a :: acts' =>
+      match step s a with
+      | Some s' => (if is_cut a then O else 1%nat) + moves acts' s'
+      | None => moves acts' s
+      end
+  end.
+
+(** No schedule makes more than [measure] request steps: the resolution terminates (with the
+    bounded number of possible connection losses, every schedule reaches quiescence). *)
+Theorem resolution_terminates acts : forall s, inv s -> (moves acts s <= measure s)%nat.
+Proof.
+  induction acts as [|a acts IH]; intros s Hs; cbn [moves]; [lia|].
+  destruct (step s a) as [s'|] eqn:E; [|auto].
+  pose proof (step_decreases _ _ _ Hs E) as HD. pose proof (IH _ (step_inv _ _ _ Hs E)) as HI.
+  destruct (is_cut a); lia.
+Qed.
+
+Lemma init_measure h decide : measure (init_sys h decide) = (length decide * (3 * h + 2))%nat.
+Proof.
+  unfold measure. cbn [init_sys s_h s_reqs]. rewrite map_map. cbn [r_phase rank].
+  induction decide as [|b l IH]; cbn [map list_sum fold_right length]; [reflexivity|]. unfold list_sum in IH. rewrite IH. lia.
+Qed.
+
+(** ** The canonical schedule used by the executable model is a schedule *)
+
+Lemma drive_one_run fuel : forall i s, exists acts, drive_one fuel i s = run acts s.
+Proof.
+  induction fuel as [|f IH]; intros i s; cbn [drive_one]; [now exists []|].
+  destruct (step s (AMove i)) as [s1|] eqn:E1.
+  - destruct (IH i s1) as [acts ->]. exists (AMove i :: acts). cbn [run]. now rewrite E1.
+  - destruct (step s (ALost i)) as [s2|] eqn:E2.
+    + destruct (IH i s2) as [acts ->]. exists (ALost i :: acts). cbn [run]. now rewrite E2.
+    + now exists [].
+Qed.
+
+Lemma run_app a1 : forall a2 s, run (a1 ++ a2) s = run a2 (run a1 s).
+Proof.
+  induction a1 as [|a a1 IH]; intros a2 s; cbn [app run]; [reflexivity|].
+  destruct (step s a); apply IH.
+Qed.
+
+Lemma drive_all_run fuel n : forall s, exists acts, drive_all fuel n s = run acts s.
+Proof.
+  induction n as [|n IH]; intros s; cbn [drive_all]; [now exists []|].
+  destruct (IH s) as [a1 ->]. destruct (drive_one_run fuel n (run a1 s)) as [a2 ->].
+  exists (a1 ++ a2). now rewrite run_app.
+Qed.
+
+Lemma rank_zero_done h dead d r : rinv h dead d r -> rank h (r_phase r) = O -> is_done r = true.
+Proof.
+  unfold rinv, is_done. destruct (r_phase r); cbn [rank]; try reflexivity; intros Hi Hz; exfalso; lia.
+Qed.
+
+(** ... and with enough fuel it resolves the request it drives. *)
+Lemma drive_one_done fuel : forall i s r,
+  inv s -> nth_error (s_reqs s) i = Some r -> (rank (s_h s) (r_phase r) <= fuel)%nat ->
+  exists r', nth_error (s_reqs (drive_one fuel i s)) i = Some r' /\ is_done r' = true.
+Proof.
+  induction fuel as [|f IH]; intros i s r Hs E Hf.
+  - cbn [drive_one]. exists r. split; [exact E|]. destruct Hs as [Hh Hi].
+    eapply rank_zero_done; [exact (Hi _ _ E)|lia].
+  - cbn [drive_one]. destruct (is_done r) eqn:Hd.
+    + (* already resolved: no step enabled *)
+      assert (HN : forall lost, step_req s i lost r = None).
+      { intros lost. unfold step_req. unfold is_done in Hd. now destruct (r_phase r). }
+      cbn [step]. rewrite E, !HN. eauto.
+    + destruct (progress _ _ _ Hs E Hd) as [H|H]; unfold enabled in H.
+      * destruct (step s (AMove i)) as [s1|] eqn:E1; [|discriminate].
+        pose proof (step_inv _ _ _ Hs E1) as Hs1.
+        cbn [step] in E1. rewrite E in E1. destruct (step_req s i false r) as [r1|] eqn:ES; [|discriminate].
+        injection E1 as <-.
+        eapply IH; [exact Hs1|cbn [s_reqs]; eapply nth_error_update_same; eauto|].
+        cbn [s_h]. destruct Hs as [_ Hi]. pose proof (step_req_decreases _ _ _ _ _ (Hi _ _ E) ES). lia.
+      * destruct (step s (AMove i)) as [s1|] eqn:E1.
+        -- pose proof (step_inv _ _ _ Hs E1) as Hs1.
+           cbn [step] in E1. rewrite E in E1. destruct (step_req s i false r) as [r1|] eqn:ES; [|discriminate].
+           injection E1 as <-.
+           eapply IH; [exact Hs1|cbn [s_reqs]; eapply nth_error_update_same; eauto|].
+           cbn [s_h]. destruct Hs as [_ Hi]. pose proof (step_req_decreases _ _ _ _ _ (Hi _ _ E) ES). lia.
+        -- destruct (step s (ALost i)) as [s2|] eqn:E2; [|discriminate].
+           pose proof (step_inv _ _ _ Hs E2) as Hs2.
+           cbn [step] in E2. rewrite E in E2. destruct (step_req s i true r) as [r2|] eqn:ES; [|discriminate].
+           injection E2 as <-.
+           eapply IH; [exact Hs2|cbn [s_reqs]; eapply nth_error_update_same; eauto|].
+           cbn [s_h]. destruct Hs as [_ Hi]. pose proof (step_req_decreases _ _ _ _ _ (Hi _ _ E) ES). lia.
+Qed.
+
+(** * Interlock of [bin] / [lr] channels *)
+
+Definition loc_eqb (a b : loc) : bool :=
+  match a, b with
+  | Local, Local | Remote, Remote | Sending CEmpty, Sending CEmpty | Sending CSent, Sending CSent
+  | Sending CClosed, Sending CClosed => true
+  | _, _ => false
+  end.
+
+(** A half that left directly has its location marked non-local: [Sending] while the confirmation is
+    outstanding, [Sending]-confirmed or [Remote] afterwards. *)
+Definition ok_side (d o : bool) (l : loc) : bool :=
+  match d, o with
+  | true, true => loc_eqb l (Sending CEmpty)
+  | true, false => loc_eqb l (Sending CSent) || loc_eqb l Remote
+  | false, true => false
+  | false, false => true
+  end.
+
+Definition il_inv (st : il_state) : bool :=
+  negb (is_bad st) && ok_side (is_direct_tx st) (is_open_tx st) (il_sender (is_il st))
+  && ok_side (is_direct_rx st) (is_open_rx st) (il_receiver (is_il st)).
+
+Lemma il_step_inv lr st a : il_inv st = true -> il_inv (il_step true lr st a) = true.
+Proof.
+  destruct st as [[ls lr_] dtx drx otx orx bad last].
+  destruct a as [[|]|[|]|[|]];
+  destruct ls as [|[| |]|], lr_ as [|[| |]|], dtx, drx, otx, orx, bad; cbn; try reflexivity; try discriminate;
+  destruct lr; cbn; try reflexivity; try discriminate.
+Qed.
+
+Lemma il_run_inv lr acts : forall st, il_inv st = true -> il_inv (fold_left (il_step true lr) acts st) = true.
+Proof.
+  induction acts as [|a acts IH]; intros st H; cbn [fold_left]; [exact H|]. apply IH. now apply il_step_inv.
+Qed.
+
+(** With the repaired transitions ([fixed = true]): whatever the order of serializations,
+    confirmations and cancellations, no serialization ever takes the direct path while the other half
+    is away on a direct connection (in progress or complete). *)
+Theorem interlock_fixed lr acts : is_bad (il_run true lr acts) = false.
+Proof.
+  pose proof (il_run_inv lr acts il_init eq_refl) as H. unfold il_run.
+  unfold il_inv in H. apply andb_prop in H. destruct H as [H _]. apply andb_prop in H. destruct H as [H _].
+  now apply negb_true_iff in H.
+Qed.
+
+(** ... instead the other half takes the forwarding path ([bin]) or fails to serialize ([lr]). *)
+Theorem interlock_fixed_other lr acts s :
+  let st := il_run true lr acts in
+  g_direct st s = true -> g_direct st (other s) = false ->
+  is_last (il_step true lr st (ISer (other s))) = if lr then SerError else Forwarding.
+Proof.
+  intros st. pose proof (il_run_inv lr acts il_init eq_refl) as H. fold (il_run true lr acts) in H. fold st in H.
+  revert H. generalize st. clear st. intros st.
+  destruct st as [[ls lr_] dtx drx otx orx bad last].
+  destruct s; destruct ls as [|[| |]|], lr_ as [|[| |]|], dtx, drx, otx, orx, bad; cbn; try discriminate; destruct lr; cbn; try reflexivity; try discriminate.
+Qed.
+
+(** A cancelled direct transfer (its callback is dropped unrun) makes the location it marked local
+    again at the next check -- in both variants of the transitions. *)
+Theorem interlock_cancel_reverts fixed lr st s :
+  g_open st s = true -> get_loc (is_il st) (marked fixed s) = Sending CEmpty ->
+  let st' := il_step fixed lr st (ICancel s) in
+  check_local (get_loc (is_il st') (marked fixed s)) = (Local, true) /\ g_direct st' s = false.
+Proof.
+  destruct st as [[ls lr_] dtx drx otx orx bad last]. destruct fixed, s; cbn; intros -> ->; cbn; auto.
+Qed.
+
+(** The code as it is ([fixed = false]) marks the wrong location: after the sender has left (and its
+    transfer was confirmed), serializing the receiver takes the direct path again (finding F10). *)
+Theorem interlock_refuted : forall lr,
+  exists acts, is_bad (il_run false lr acts) = true /\ is_last (il_run false lr acts) = Direct.
+Proof. intros lr. exists [ISer STx; IConfirm STx; ISer SRx]. destruct lr; vm_compute; auto. Qed.
+
+(** Outside the known class (both halves of one channel get serialized) the code as it is keeps the
+    property: if only one side is ever serialized nothing bad happens. *)
+Definition only_side (s0 : side) (a : il_action) : bool :=
+  match a with ISer s => side_eqb s s0 | _ => true end.
+
+Lemma il_step_one_side lr s0 st a :
+  only_side s0 a = true -> is_bad st = false -> g_direct st (other s0) = false -> g_open st (other s0) = false ->
+  let st' := il_step false lr st a in
+  is_bad st' = false /\ g_direct st' (other s0) = false /\ g_open st' (other s0) = false.
+Proof.
+  destruct st as [[ls lr_] dtx drx otx orx bad last].
+  destruct s0, a as [[|]|[|]|[|]]; destruct ls as [|[| |]|], lr_ as [|[| |]|], dtx, drx, otx, orx, bad; cbn;
+  intros H0 H1 H2 H3; try congruence; destruct lr; cbn; auto.
+Qed.
+
+Theorem interlock_one_side lr s0 acts :
+  forallb (only_side s0) acts = true -> is_bad (il_run false lr acts) = false.
+Proof.
+  unfold il_run.
+  assert (G : forall acts st, forallb (only_side s0) acts = true ->
+            is_bad st = false -> g_direct st (other s0) = false -> g_open st (other s0) = false ->
+            is_bad (fold_left (il_step false lr) acts st) = false).
+  { induction acts0 as [|a acts0 IH]; intros st HF H1 H2 H3; cbn [fold_left]; [exact H1|].
+    cbn [forallb] in HF. apply andb_prop in HF. destruct HF as [Ha HF].
+    destruct (il_step_one_side lr s0 st a Ha H1 H2 H3) as [K1 [K2 K3]]. now apply IH. }
+  intros HF. apply G; [exact HF|reflexivity|now destruct s0|now destruct s0].
+Qed.
